@@ -40,6 +40,10 @@ func Registry() []*Spec {
 		Quick: map[string]int{}, Thorough: map[string]int{},
 		Covers: []string{"valid", "invalid"}, UnitDepth: 3, Asserts: []string{"accept-iff-valid"},
 		Note: "the 15 JSON skeletons of the C03 templates harness (7..17 bytes with free symbolic bytes in strings, keys, escapes, \\u hex digits, literals, numbers with fraction and exponent, nested values), whole and chunked: every strict front-end accepts iff the RFC 8259 reference does"})
+	add(Spec{Property: "C09", Name: "VerifC03_Templates", Pkg: "asm",
+		Quick: map[string]int{}, Thorough: map[string]int{},
+		Covers: []string{"valid", "invalid"}, UnitDepth: 3, Asserts: []string{"pos"},
+		Note: "the JSON skeletons of the C03 templates harness (7..17 bytes, free symbolic bytes), delivered whole / byte by byte / split at every position: a rejected text is reported at the line and column of the reference's first offending byte by oj.Parse, ParseReader, Tokenizer(+Load), gen.Parser(+Reader) and Validator(+Reader); incomplete texts are not asserted here (end-of-input positions: see the known findings)"})
 	add(Spec{Property: "C03", Name: "VerifC03_Multi", Pkg: "asm",
 		Quick: map[string]int{"N": 3}, Thorough: map[string]int{"N": 4},
 		Covers: []string{"valid", "invalid"}, UnitDepth: 3,
